@@ -32,6 +32,15 @@ def close(a, b, tol=TOL):
     return abs(a - b) <= tol * (1 + abs(b))
 
 
+def scale_slack(spec):
+    """Absolute slack for objective values of badly scaled problems.  GLPK declares optimality when every reduced cost is within 1e-7 (tol_dj);
+    what that leaves on the table is bounded by 1e-7 x the sum of the widths of the variables' boxes.  For models whose bounds stay within
+    1e4 that is far below the relative 1e-5 used everywhere; a model with a bound of 1e6 (the generator's wide profile) can be 1e-1 off."""
+    widths = [abs(fbagen.fr(r["ub"]) - fbagen.fr(r["lb"])) for r in spec["rxns"] if fbagen.fr(r["lb"]) is not None and fbagen.fr(r["ub"]) is not None]
+    big = max([abs(x) for r in spec["rxns"] for x in (fbagen.fr(r["lb"]), fbagen.fr(r["ub"])) if x is not None] or [0])
+    return float(sum(widths)) * 1e-7 if big > 10 ** 4 else 0.0
+
+
 def feasibility_problems(spec, fluxes, tol=1e-6, extra=()):
     """Independent feasibility test of a flux dict against stoichiometry and bounds."""
     bad = []
@@ -219,9 +228,9 @@ def check_case(case):
             fl = {r: sol.fluxes[r] for r in rids}
             fails += feasibility_problems(ko_spec, fl)
             dist = sum(abs(fl[r] - float(ref[r])) for r in rids)
-            if not close(dist, float(exact), 1e-5):
+            if not close(dist, float(exact), 1e-5) and abs(dist - float(exact)) > scale_slack(ko_spec):
                 fails.append(f"summed distance of the returned fluxes {dist} != minimum {float(exact)}")
-            if not close(sol.objective_value, float(exact), 1e-5):
+            if not close(sol.objective_value, float(exact), 1e-5) and abs(sol.objective_value - float(exact)) > scale_slack(ko_spec):
                 fails.append(f"MOMA objective value {sol.objective_value} != minimal distance {float(exact)}")
             return fails, "ran"
         if defaulted and method in ("room", "room_linear"):
@@ -250,7 +259,7 @@ def check_case(case):
                 return [f"room(linear) raised {type(e).__name__}: {e}"], "ran"
             fl = {r: sol.fluxes[r] for r in rids}
             fails += feasibility_problems(ko_spec, fl)
-            if not close(sol.objective_value, float(exact), 1e-5):
+            if not close(sol.objective_value, float(exact), 1e-5) and abs(sol.objective_value - float(exact)) > scale_slack(ko_spec):
                 fails.append(f"linear ROOM objective value {sol.objective_value} != relaxed optimum {float(exact)}")
             return fails, "ran"
         if method == "room":
